@@ -326,4 +326,52 @@ theorem c18_all_sites_single_tag :
   obtain ⟨p, d, q, ho, h⟩ := c18_site_inert s hok
   exact ⟨p, d, q, ho, fun v hv => (h v hv).imp fun _ ht => ht.1⟩
 
+/-! ## plain-text failure responses (round 2) -/
+
+/-- **The plain failure body is never a markup document.**  For every status code, status text
+and message — the message may echo request input verbatim — the body
+`"<code> <status> <message>\n"` that `writeFailureResponse` writes without a Content-Type does
+not start (after optional white space) with `<`, so neither `net/http.DetectContentType` nor a
+sniffing browser can take it for HTML or XML; whatever markup the message contains stays text:
+the property's predicate `responseOK` holds for any number of canary elements in the body. -/
+theorem c18_failure_text_inert (code : Nat) (status msg : List Char) (canaryElems canaryAttrs : Nat) :
+    sniffMayBeMarkup (failureText code status msg) = false ∧
+    isMarkupResponse none (failureText code status msg) = false ∧
+    responseOK none (failureText code status msg) canaryElems canaryAttrs = true := by
+  have h := failureText_not_markup code status msg
+  refine ⟨h, ?_, ?_⟩
+  · simp [isMarkupResponse, h]
+  · simp [responseOK, isMarkupResponse, h]
+
+/-- the same body under an explicit non-markup label (what `http.Error` does: `text/plain` +
+`nosniff`) -/
+theorem c18_labelled_text_inert (ct body : List Char) (h0 : mediaType ct ≠ [])
+    (h : markupMedia (mediaType ct) = false) (canaryElems canaryAttrs : Nat) :
+    responseOK (some ct) body canaryElems canaryAttrs = true := by
+  simp [responseOK, isMarkupResponse, h0, h]
+
+/-- an explicit Content-Type is acceptable when it is a constant (or a local that only holds
+constants) and either names no markup type or sits in a function that writes nothing but
+template output to the response -/
+def ctSetOK (s : CTSet) : Bool :=
+  match s.values with
+  | none => false
+  | some vs => vs.all (fun v => !markupMedia (mediaType v)) || !s.rawWriter
+
+/-- **Content types** (regenerated table): no handler of cmd/keymasterd that writes raw bytes
+labels its response as a markup type, no Content-Type is computed from data, and the failure
+body has the format modelled by `failureText` — so HTML documents only arise from html/template
+output (sniffed from its `<!DOCTYPE html>`), never from the plain failure text. -/
+theorem c18_content_types :
+    KM.Gen.contentTypeSets.all ctSetOK = true ∧
+    KM.Gen.failureTextFormat = "%d %s %s\n".toList := by
+  decide
+
+example : isMarkupResponse (some "text/html; charset=utf-8".toList) "400 Bad Request <img>".toList = true := by
+  decide
+example : isMarkupResponse (some "text/plain; charset=utf-8".toList) "<img>".toList = false := by decide
+example : responseOK (some " Text/HTML;x".toList) [] 1 0 = false := by decide
+example : failureText 400 "Bad Request".toList "invalid netblock <img src=x>".toList =
+    "400 Bad Request invalid netblock <img src=x>\n".toList := by decide
+
 end KM.Html
